@@ -194,6 +194,11 @@ def run_extra(case, real):
         if which == 4:
             p = numpoly.polynomial([[q0 * q2, c], [q1 - q1, q2 ** n]])
             return p.T, numpoly.sum(p, axis=0), numpoly.prod(p, axis=1), p @ p, numpoly.diag(p)
+        if (c + n) % 2:
+            # every term of one indeterminate cancels; evaluate with a float for it
+            p = (q0 + c) - q0
+            w = numpoly.polynomial([q0 * n + 1, 2 * q0]) - numpoly.polynomial([n, 2]) * q0
+            return p(0.5), p(numpy.float32(2)), w(0.25), w(numpy.array([0.5, 1.5]))
         p = c * q0 ** n * q1 - q2
         z = p - p
         return z, z + 1, pickle.loads(pickle.dumps(z)), (p * z).tonumpy()
@@ -215,7 +220,8 @@ def fingerprint(value, depth=0):
     if isinstance(value, (list, tuple)) and depth < 5:
         return ("seq", [fingerprint(v, depth + 1) for v in value])
     if isinstance(value, (numpy.generic, int, float, complex, bool)):
-        return ("num", numpy.asarray(value))
+        arr = numpy.asarray(value)  # a numpy scalar and a 0-d array denote the same result
+        return ("arr", (), str(arr.dtype), arr)
     if value is None:
         return ("none",)
     if isinstance(value, numpy.dtype):
